@@ -628,7 +628,11 @@ class CouplingAnalysis:
         :returns: transformed partial correlation.
         """
 
-        return -0.5*numpy.log(1. - par_corr**2)
+        #  rounding can push an exact (anti-)correlation slightly outside
+        #  [-1, 1], which would turn the infinite information into NaN
+        par_corr = numpy.clip(par_corr, -1., 1.)
+        with numpy.errstate(divide="ignore"):
+            return -0.5*numpy.log(1. - par_corr**2)
 
     @staticmethod
     def get_nearest_neighbors(array, xyz, k, standardize=True):
